@@ -130,12 +130,13 @@ def make_droplet(cls_name, d):
     import droplets.droplets as D
 
     cls = getattr(D, cls_name)
-    pos = np.array(d["position"], float)
+    pos, rad = gen.as_given(d["position"], d["radius"], d)
     if cls_name == "SphericalDroplet":
-        return cls(pos, d["radius"])
+        return cls(pos, rad)
     if "amplitudes" in d:
-        return cls(pos, d["radius"], d["interface_width"], np.array(d["amplitudes"], float))
-    return cls(pos, d["radius"], d["interface_width"])
+        amps = np.array(d["amplitudes"], float) if len(d["amplitudes"]) % 2 else [float(a) for a in d["amplitudes"]]
+        return cls(pos, rad, d["interface_width"], amps)
+    return cls(pos, rad, d["interface_width"])
 
 
 def geometry(spec, geom, pos):
